@@ -31,8 +31,22 @@ const (
 )
 
 type world struct {
-	mfs    *mountFS
-	mounts atomic.Int64
+	mfs     *mountFS
+	mounts  atomic.Int64
+	exports int            // exports taken so far: rotates the entry point / cut order handed on
+	counts  map[string]int // shape counters, reported as extras
+}
+
+func (w *world) nextExport() int {
+	w.exports++
+	return w.exports - 1
+}
+
+func (w *world) count(k string, n int) {
+	if w.counts == nil {
+		w.counts = map[string]int{}
+	}
+	w.counts[k] += n
 }
 
 func newWorld() *world {
@@ -435,6 +449,9 @@ func TestVerifBackupRestore(t *testing.T) {
 		rep.Infra("trace file: %v", err)
 	}
 	rep.Extra("known_findings_seen", sortedKeys(r.known))
+	for k, n := range r.w.counts {
+		rep.AddExtra(k, n)
+	}
 	if err := rep.Finish(rec); err != nil {
 		t.Fatal(err)
 	}
